@@ -112,3 +112,21 @@ Qed.
 (* DiagLinearOperator._get_indices: diag[row] * (row == col) *)
 Theorem diag_get_indices_correct : forall (d : Z -> Z) r c, diag_get_indices d r c = if r =? c then d r else 0.
 Proof. intros. unfold diag_get_indices. destruct (r =? c); ring. Qed.
+
+(* ------------------------------------------------------------------------------------- *)
+(** BlockLinearOperator._getitem, fast path for slices whose bounds are multiples of num_blocks (interleaved layout; as
+    repaired by proposed_fixes/C03-block-aligned-slice: the block dimension of the base is not indexed): the result is
+    the SAME class over the base sliced at row a = start // k, column c = start // k.  Its entry (x, y) is the entry
+    (a*k + x, c*k + y) of the original operator. *)
+Require Import C03.ProofsClass.
+
+Theorem blockinterleaved_aligned_slice : forall k (base : Z -> Z -> Z -> Z) a c x y,
+  0 < k -> 0 <= a -> 0 <= c -> 0 <= x -> 0 <= y ->
+  blockinterleaved_get_indices k base (a * k + x) (c * k + y) =
+  blockinterleaved_get_indices k (fun b i j => base b (a + i) (c + j)) x y.
+Proof.
+  intros k base a c x y Hk Ha Hc Hx Hy. unfold blockinterleaved_get_indices, py_div.
+  rewrite !Z.div_add_l by lia.
+  rewrite !fmod_nonneg by nia.
+  rewrite (Z.add_comm (a * k)), (Z.add_comm (c * k)), !Z.mod_add by lia. reflexivity.
+Qed.
